@@ -310,6 +310,14 @@ fn tree_cases(tier: Tier) -> Vec<A> {
             }
         }
     }
+    // deep chains: indentation levels beyond any small constant
+    for depth in [17usize, 33, 40] {
+        let mut e = A::el("", "a").attr("", "k", "v").child(A::el("", "b"));
+        for i in 0..depth {
+            e = A::el("", if i % 2 == 0 { "b" } else { "a" }).child(e).child(A::comment("c"));
+        }
+        out.push(A::doc(vec![e]));
+    }
     if tier == Tier::Thorough {
         let red = reduced_specs();
         for (i, a) in red.iter().enumerate() {
